@@ -156,7 +156,13 @@ func C02(tier string) int {
 	for _, b := range fullBad {
 		run.Violate("storage-full-double-proposal:"+firstWords(b, 1), b, map[string]any{"check": "C02", "storage_full": true})
 	}
+	racePassInfo, err := raceFindings(run, "six clients (four on keys of their own, two sharing a key) sign side by side through the real signer stack, single requests and batches, free-running in a child built with -race")
+	if err != nil {
+		run.HarnessErr = err
+		return run.Finish()
+	}
 	run.Coverage = map[string]any{
+		"race_detector_pass":            racePassInfo,
 		"storage_full_histories_run":    fullRuns,
 		"states":                        r1.States + r2.States,
 		"transitions":                   r1.Transitions + r2.Transitions,
@@ -189,6 +195,13 @@ func replaySOps(raw json.RawMessage) int {
 	if err := json.Unmarshal(raw, &rp); err != nil {
 		fmt.Println(err)
 		return 2
+	}
+	var rr struct {
+		Check string `json:"check"`
+		Race  string `json:"race"`
+	}
+	if json.Unmarshal(raw, &rr) == nil && rr.Race != "" {
+		return replayRace(rr.Check, rr.Race)
 	}
 	if rp.Procs > 0 {
 		runtime.GOMAXPROCS(rp.Procs)
